@@ -420,7 +420,8 @@ MANIFEST = dict(
     'power exactly iPu without water-filling, <= iPu with equality for the '
     'strongest user with normalised water-filling (all doWF branches), and '
     'receive filter x effective channel = I, by linearised z3 prover over '
-    'the svd/pinv contracts and z3 NRA for the inequalities.  The external-'
+    'the svd/pinv contracts and z3 NRA for the inequalities, also for an '
+    'object whose iPu / noise_var were re-assigned after a first use.  The external-'
     'interference variants (WhiteningBD, EnhancedBD) are not decided.',
     note='svd/pinv/matrix_rank contract stubs with generic-rank assumption; '
     'floats as reals; small sizes; ext-int variants outside',
